@@ -33,12 +33,13 @@ type scriptT struct {
 	writeBlock chan struct{} // if non-nil Write blocks until closed
 	flushBlock chan struct{} // if non-nil Flush blocks until closed or ctx done
 
-	wbuf      []byte         // written, not yet flushed
-	onFlush   func(b []byte) // called (outside the lock) with each flushed chunk
-	staleEOF  bool           // see Read
-	lastClose string         // who closed it last (diagnostics)
-	readLog   []string
-	flushed   [][]byte
+	wbuf         []byte         // written, not yet flushed
+	onFlush      func(b []byte) // called (outside the lock) with each flushed chunk
+	staleEOF     bool           // see Read
+	staleEOFWait time.Duration
+	lastClose    string // who closed it last (diagnostics)
+	readLog      []string
+	flushed      [][]byte
 
 	opens, closes int
 }
@@ -110,7 +111,7 @@ func (s *scriptT) Read(p []byte) (int, error) {
 		if !s.open || s.gen != gen {
 			if s.staleEOF {
 				// a pipe-like stream: the local close reaches the blocked reader as EOF, and late
-				deadline := time.Now().Add(30 * time.Millisecond)
+				deadline := time.Now().Add(s.staleEOFWait)
 				for !(s.open && s.gen != gen) && time.Now().Before(deadline) {
 					s.mu.Unlock()
 					time.Sleep(200 * time.Microsecond)
